@@ -40,7 +40,7 @@ def run(ck):
                 ck.cat("barely_oversize")
     ck.rule = ("TLC enumerates every sequence of <=5 values in 0..C+2 containing at least one oversize item (every position and multiplicity); ff, ffd, bf, bfd "
                "and bin-completion called on each as list / dict / names+valueof with all ten output types - every call must raise ValueError; TLC also "
-               "enumerates every cbldm call with exactly one invalid argument (bin count, negative item(s), time limit, cardinality bound) over small valid "
+               "enumerates every cbldm call with exactly one invalid argument (bin count, negative item(s), time limit, cardinality bound; each also as numpy float / numpy integer / Fraction) over small valid "
                "inputs, plus the all-valid control; numitems probed on both managers. non-trivial = distinct stimulus")
     traces = run_pack_groups(ck, groups, {"C19"}, "C19 oversize refusal", nontrivial=lambda t: True)
     r = ck.mc("RefuseGen", "CONSTANTS MaxN = %d MaxV = 3\nINIT Init\nNEXT Next\n" % (3 if q else 4), "GEN cbldm argument grid")
